@@ -197,7 +197,16 @@ where
             ret = async {pipe_fn.read().await}, if have_rawfd => {
                 let len = ret.with_context(|| format!("pipe_read from {}", src.name))?;
                 if len > 0 {
-                    pipe_fn.write(len >= params.buffer_size).await.with_context(|| format!("pipe_write to {}", dst.name))?;
+                    // one splice out of the pipe may move less than what went in: keep going until the pipe is empty again,
+                    // or the rest would be stuck in it when the source ends
+                    let mut left = len;
+                    while left > 0 {
+                        let n = pipe_fn.write(len >= params.buffer_size).await.with_context(|| format!("pipe_write to {}", dst.name))?;
+                        if n == 0 {
+                            return Err(err_msg(format!("pipe_write to {}: wrote nothing", dst.name)));
+                        }
+                        left = left.saturating_sub(n);
+                    }
                     stat.incr_sent_bytes(len);
                     #[cfg(feature = "metrics")]
                     counter.inc_by(len as u64);
